@@ -35,6 +35,9 @@ pub struct Interner {
     pub decode_mismatch: Vec<(DevKey, Vec<i8>, Vec<i8>)>,
     pub devices_decoded: u64,
     pub read_checked: std::collections::HashSet<u32>,
+    /// library panics met (and worked around) while reading compiled bytes
+    pub lib_panics: Vec<(String, vf_core::PanicInfo)>,
+    pub lib_panic_count: u64,
 }
 
 impl Interner {
@@ -59,6 +62,12 @@ impl Interner {
     }
     pub fn len(&self) -> usize {
         self.list.len()
+    }
+    pub fn note_panic(&mut self, what: &str, p: vf_core::PanicInfo) {
+        self.lib_panic_count += 1;
+        if !self.lib_panics.iter().any(|(_, q)| q.signature() == p.signature()) {
+            self.lib_panics.push((what.to_string(), p));
+        }
     }
     pub fn show(&self, id: u32) -> String {
         match self.get(id) {
@@ -284,10 +293,14 @@ pub fn dev_read(
                 if let Some(DevKey::Device { start, end, fmt, words }) = it.get(id).cloned() {
                     if let Some(want) = ref_decode_device(start, end, fmt, &words) {
                         it.devices_decoded += 1;
-                        let got: Vec<i8> = d.iter().collect();
-                        if got != want && it.decode_mismatch.len() < 8 {
-                            it.decode_mismatch
-                                .push((DevKey::Device { start, end, fmt, words }, got, want));
+                        match vf_core::guard(|| d.iter().collect::<Vec<i8>>()) {
+                            Ok(got) => {
+                                if got != want && it.decode_mismatch.len() < 8 {
+                                    it.decode_mismatch
+                                        .push((DevKey::Device { start, end, fmt, words }, got, want));
+                                }
+                            }
+                            Err(p) => it.note_panic("Device::iter", p),
                         }
                     }
                 }
@@ -341,5 +354,30 @@ pub fn anchor_read(a: &rg::AnchorTable<'_>, it: &mut Interner) -> NAnchor {
             ydev: dev_read(t.y_device(), it),
             fmt: 3,
         },
+    }
+}
+
+/// `CoverageTable::get`, surviving a library panic: the panic is recorded (it
+/// is reported once per site) and the index is then computed by a reference
+/// implementation so that the rest of the case can still be checked.
+pub fn cov_get(cov: &rl::CoverageTable<'_>, g: u16, it: &mut Interner) -> Option<u16> {
+    match vf_core::guard(|| cov.get(font_types::GlyphId16::new(g))) {
+        Ok(r) => r,
+        Err(p) => {
+            it.note_panic("CoverageTable::get", p);
+            ref_cov_get(cov, g)
+        }
+    }
+}
+
+pub fn ref_cov_get(cov: &rl::CoverageTable<'_>, g: u16) -> Option<u16> {
+    match cov {
+        rl::CoverageTable::Format1(t) => t.glyph_array().iter().position(|x| x.get().to_u16() == g).map(|i| i as u16),
+        rl::CoverageTable::Format2(t) => t.range_records().iter().find_map(|r| {
+            let (s, e) = (r.start_glyph_id().to_u16(), r.end_glyph_id().to_u16());
+            (s..=e)
+                .contains(&g)
+                .then(|| (r.start_coverage_index() as u32 + (g - s) as u32) as u16)
+        }),
     }
 }
